@@ -29,7 +29,7 @@ from .sweep import seam
 
 RULE = ("pairs of scenarios (same scenario twice; equal layout / different content, YAML+YAML and YAML+dict; generated with "
         "different seeds; seeded vs unseeded benchmark; same name / different topology; different layouts) x action triples x "
-        "all order-preserving interleavings of two 8-operation programs within the switch bound; "
+        "all order-preserving interleavings of the two programs within the switch bound; "
         "non-trivial = interleaving with >= 1 switch between the two environments")
 
 PROGRAM = ["construct", "reset", "step0", "step1", "peek", "step2", "read", "reset", "step0", "read"]
@@ -238,6 +238,16 @@ def pairs(tier):
         ("different_layout_tiny_vs_small", {"kind": "shipped", "name": "tiny"}, {"kind": "shipped", "name": "small"}),
         ("different_layout_reversed_services", _yaml_desc(s1), _yaml_desc(rev)),
     ]
+    # large pair: 31 one-host subnets in a chain (topology matrix and state tensor above 1000 cells, where NumPy
+    # abbreviates str(array)); the two differ ONLY in which inner subnet is public as well
+    big = dict(base); big.update(shape="-".join(["1"] * 31), topo="chain", hostfw="none", sensitive="last", sw="1os1s1p",
+                                 exploits="e0", privescs="any_root", prob="one")
+    b1 = build(big, name="iso-chain31")
+    b2 = copy.deepcopy(b1)
+    for sp_, k in ((b1, 10), (b2, 20)):
+        sp_["topology"][0][k] = sp_["topology"][k][0] = 1
+        sp_["firewall"][(0, k)] = list(sp_["services"]); sp_["firewall"][(k, 0)] = []
+    out.append(("chain31_other_inner_public_subnet", {**_yaml_desc(b1), "max_triples": 1}, {**_yaml_desc(b2), "max_triples": 1}))
     if tier == "thorough":
         out += [
             ("small_gen_seed0_vs_seed3", {"kind": "benchmark", "name": "small-gen", "seed": 0},
@@ -279,7 +289,7 @@ def action_triples(desc, tier):
         if h[-1] not in last_seen:       # state-changing third step (each exploit / scan / escalation) is driven
             last_seen.add(h[-1])
             triples.append(h)
-    triples = triples[: (6 if tier == "quick" else 12)]
+    triples = triples[: desc.get("max_triples") or (6 if tier == "quick" else 12)]
     if not triples:
         base = (frontier[0][1] + [0, 1, 2])[:3]
         triples = [base]
@@ -388,7 +398,7 @@ def run(pid, tier):
         "rule": RULE, "samples": [{"schedule": s, "switches": sw} for s, sw in rotate(scheds, 3)] + [{"program": PROGRAM}],
         "exhaustive": True, "pairs": per_pair, "interleavings_per_case": len(scheds),
         "switch_bound": "unbounded (all %d)" % len(scheds) if max_sw is None else max_sw,
-        "bound": f"two 8-operation programs, switch bound {max_sw}, 2 draw scripts, 1-3 action triples per pair",
+        "bound": f"two {len(PROGRAM)}-operation programs, switch bound {max_sw}, 2 draw scripts, 1-3 action triples per pair",
         "note": "states = interleaved executions; each compared with two fresh-interpreter solo traces",
     }
     assume = ["solo reference traces are computed in fresh interpreters (the environment is the only one in its process)",
